@@ -19,16 +19,17 @@ CONSTANTS
               \*                      dc, dh : peak durations in hu (even), wc, wh : BOOLEAN window of a zero-peak month sees load]
   Plain,      \* the input every other month of the year gets
   Horizons,   \* set of end_month values
+  Leaps,      \* set of BOOLEAN: is the (single) load year a leap year? (every simulated year then has a 29-day February)
   Fixed       \* defects modelled as repaired: "F2", "F9"
 
-VARIABLES M, slot, special, i, segs, done, prevEndOk
-vars == <<M, slot, special, i, segs, done, prevEndOk>>
+VARIABLES M, slot, special, i, segs, done, prevEndOk, leap
+vars == <<M, slot, special, i, segs, done, prevEndOk, leap>>
 
 HU == 2000000            \* hu per hour
 PH == 2                  \* the 1e-6 h placeholder duration
 DaysRef == <<31, 28, 31, 30, 31, 30, 31, 31, 30, 31, 30, 31>>
 Moy(m) == ((m - 1) % 12) + 1
-Hours(m) == 24 * DaysRef[Moy(m)]
+Hours(m) == 24 * (IF leap /\ Moy(m) = 2 THEN 29 ELSE DaysRef[Moy(m)])
 Len_hu(m) == Hours(m) * HU
 
 \* ---- find_peak_durations, as far as process_month_loads can see it ------------------------
@@ -84,14 +85,14 @@ MonthDuration(m) ==      \* what month_rate divides by
   IF Ipf(m) THEN Len_hu(m) - EDc(inp) - EDh(inp) ELSE Len_hu(m)
 
 -----------------------------------------------------------------------------
-Init == /\ M \in Horizons /\ slot \in 1..12 /\ special \in Inputs
+Init == /\ M \in Horizons /\ slot \in 1..12 /\ special \in Inputs /\ leap \in Leaps
         /\ i = 0 /\ segs = <<>> /\ done = FALSE /\ prevEndOk = TRUE
 
 Step == /\ ~done /\ i < M
         /\ i' = i + 1 /\ segs' = Emit(i + 1)
         /\ prevEndOk' = (i = 0 \/ segs[Len(segs)] = <<"avg", Len_hu(i)>>)
-        /\ UNCHANGED <<M, slot, special, done>>
-Finish == /\ ~done /\ i = M /\ done' = TRUE /\ UNCHANGED <<M, slot, special, i, segs, prevEndOk>>
+        /\ UNCHANGED <<M, slot, special, done, leap>>
+Finish == /\ ~done /\ i = M /\ done' = TRUE /\ UNCHANGED <<M, slot, special, i, segs, prevEndOk, leap>>
 Next == Step \/ Finish
 Spec == Init /\ [][Next]_vars
 
@@ -181,12 +182,12 @@ F14Present == ~(Known_F14 /\ ~Conserves)        \* violated <=> the finding stil
 \* vacuity witnesses (must be violated = reachable)
 SomeWindowsDisjoint == ~(Active /\ WindowsDisjoint /\ RealC /\ RealH)
 
-Alias == [M |-> M, slot |-> slot, special |-> special, i |-> i, segs |-> segs, ipf |-> Ipf(i), A |-> A, C |-> C, Hh |-> Hh,
+Alias == [M |-> M, leap |-> leap, slot |-> slot, special |-> special, i |-> i, segs |-> segs, ipf |-> Ipf(i), A |-> A, C |-> C, Hh |-> Hh,
           dur |-> MonthDuration(i)]
 
 \* ---- generator for the replay (B1 level A): one line per (M, slot, special): every month's segments ----
 AllMonths == [m \in 1..M |-> Emit(m)]
-EmitGen == (i = 0 /\ ~done) => PrintT(ToJson([M |-> M, slot |-> slot, special |-> special, plain |-> Plain,
+EmitGen == (i = 0 /\ ~done) => PrintT(ToJson([M |-> M, slot |-> slot, special |-> special, plain |-> Plain, leap |-> leap,
                                                  months |-> AllMonths,
                                                  ipf |-> [m \in 1..M |-> Ipf(m)],
                                                  mdur |-> [m \in 1..M |-> MonthDuration(m)]]))
